@@ -73,6 +73,9 @@ TRANSPARENT = [
     r"std::slice::iter_mut$",
     r"std::slice::first$",
     r"std::slice::last$",
+    r"std::vec::Vec::remove$",        # the removed element is an element of the vector
+    r"std::vec::Vec::swap_remove$",
+    r"std::vec::Vec::pop$",
     r"std::vec::Vec::first$",
     r"std::vec::Vec::last$",
     r"<.* as std::ops::Index<.*>>::index$",
@@ -92,6 +95,7 @@ TRANSPARENT = [
 ]
 _TRANSPARENT_RE = re.compile("|".join("(?:%s)" % p for p in TRANSPARENT))
 
+_MAP_OR_RE = re.compile(r"^std::(option::Option|result::Result)::(map_or|map_or_else)$")
 # value is one of the two arguments
 _UNION_ARGS_RE = re.compile(r"^(std::option::Option::unwrap_or|std::result::Result::unwrap_or|std::option::Option::unwrap_or_else|std::result::Result::unwrap_or_else)$")
 
@@ -580,6 +584,31 @@ class FnView:
             out |= self._origins_op(val, proj, taint, visiting | {(l, proj, at)}, (b, n))
         return out
 
+    def _closure_result_origins(self, op, b, proj, taint, at):
+        """Origins (in this function's terms) of what the closure / function item passed as `op` returns; None when
+        it cannot be read."""
+        cps = set()
+        for o in self._origins_op(op, (), False, frozenset(), at):
+            if o.kind == "closure" and o.a in self.model.fnsrc:
+                cps.add((o.a, int(o.b.rsplit(":bb", 1)[1]) if o.b else b))
+            elif o.kind == "fnitem":
+                n = norm_name(str(o.a))
+                if n.endswith("::default") or n.endswith("::new") or n.endswith("::zero"):
+                    return {Origin("call", n, "%s:bb%d" % (self.path, b), proj)}
+                return None
+            else:
+                return None
+        if not cps:
+            return None
+        from .guards import resolve
+        out = set()
+        for cp, cb in cps:
+            cv = self.model.view(cp)
+            for rb in cv.return_blocks():
+                sub = cv.origins_of_place({"l": 0, "p": []}, proj=proj, at=cv.at_term(rb), taint=taint)
+                out |= resolve(self.model, ((self.path, cb, "closure"),), cv, sub, taint=taint, elems=True)
+        return out
+
     def _alias_write_origins(self, l, proj, cur, visiting, at):
         res = set()
         dw = self._dw
@@ -861,9 +890,20 @@ class FnView:
                 return r
         if proj and callee in ("std::vec::Vec::new", "std::vec::Vec::with_capacity"):
             return set()     # an empty vector has no elements: element reads see what was pushed (see _origins_local)
+        if _MAP_OR_RE.search(callee) and len(t["args"]) == 3 and getattr(self, "model", None) is not None:
+            # opt.map_or(default, |x| e) / map_or_else(|| d, |x| e): the default, or what the closure computes from the payload
+            r = self._closure_result_origins(t["args"][2], b, proj, taint, at)
+            if r is not None:
+                d = (self._closure_result_origins(t["args"][1], b, proj, taint, at) if callee.endswith("_else")
+                     else self._origins_op(t["args"][1], proj, taint, visiting, at))
+                if d is not None:
+                    return r | d
         if _UNION_ARGS_RE.search(callee) and len(t["args"]) >= 2:
+            a1 = None
+            if callee.endswith("_else") and getattr(self, "model", None) is not None:
+                a1 = self._closure_result_origins(t["args"][1], b, proj, taint, at)
             return (self._origins_op(t["args"][0], proj, taint, visiting, at)
-                    | self._origins_op(t["args"][1], proj, taint, visiting, at))
+                    | (a1 if a1 is not None else self._origins_op(t["args"][1], proj, taint, visiting, at)))
         if _TRANSPARENT_RE.search(callee):
             if t["args"]:
                 return self._origins_op(t["args"][0], proj, taint, visiting, at)
